@@ -127,7 +127,7 @@ def run(ctx: Ctx) -> None:
     c06.run(Alias(ctx, "C05.R3", "HTTP/1: after an aborted response the connection is closed instead of recycled - recycling requires both h11 sides DONE (C06.R1)", only={"C06.R1"}))
     from . import c17
 
-    c17.run(Alias(ctx, "C05.R8", "WSGI adapter: an application that raises does not get its response completed by the adapter (C17.R9), and its iterable is closed (C17.R3)", only={"C17.R9", "C17.R3"}))
+    c17.run(Alias(ctx, "C05.R8", "WSGI adapter: an application that raises does not get its response completed by the adapter (C17.R9), its iterable is closed (C17.R3), and the response head is sent only once output exists (first chunk or normal end), so a failure after start_response() still yields a 500 instead of a truncated 200 (C17.R4)", only={"C17.R9", "C17.R3", "C17.R4"}))
 
     ctx.assume("not decided: the bytes the client sees and when; that sibling streams keep working (only that nothing escapes into their shared task group, see C04)")
     from . import typestate_rules
